@@ -48,10 +48,11 @@ def ordinary(it, name, refs=(), h=None):
     """ordinary cell built by the real constructor, then given an opaque representation hash"""
     c = cm.new_cell(it, cm.tvm_bits(it, BA([Seg(8, 'k', '10100101')])), list(refs))
     hh = h if h is not None else sym32('H_' + name)
-    n = len(c.attrs['_hashes'].items)          # one hash per significant level (more than one above pruned branches)
+    n = len(cm.cached(it, c, '_hashes').items)          # one hash per significant level (more than one above pruned branches)
     c.attrs['_hashes'] = ListV([hh] + [sym32(f'H_{name}@{k}') for k in range(1, n)])
-    c.attrs['_hash'] = c.attrs['_hashes'].items[-1]
+    c.attrs['_hash'] = cm.cached(it, c, '_hashes').items[-1]
     cm.reforge(it, c)
+    cm.shadow_lookups(it, c)
     c.l0 = hh
     c.tag = name
     return c
@@ -129,7 +130,7 @@ def check(run):
             try:
                 h = cm.call_method(it0, kid, 'get_hash', K(l))
                 d = cm.call_method(it0, kid, 'get_depth', K(l))
-                good = h is kid.attrs['_hashes'].items[want] and d is kid.attrs['_depths'].items[want]
+                good = h is cm.cached(None, kid, '_hashes').items[want] and d is cm.cached(None, kid, '_depths').items[want]
                 why = f'get_hash -> {vrepr(h)[:20]}, get_depth -> {vrepr(d)[:12]}; specification: stored entry {want}'
             except RaiseEx as e:
                 good, why = False, f'raises {e}'
@@ -284,6 +285,7 @@ def check(run):
             acc1.attrs['_hashes'] = ListV([A])
             acc1.attrs['_hash'] = A
             cm.reforge(it, acc1)
+            cm.shadow_lookups(it, acc1)
         acc2 = const_cell(it, '0')                               # account_none$0
         acc3 = const_cell(it, '0')
         lth = {1: format(0x11, '08b') * 32, 2: format(0x22, '08b') * 32, 3: format(0x33, '08b') * 32}
@@ -332,7 +334,7 @@ def check(run):
                     if claim_kind == 'ordinary':
                         # not forged: its hash is the constructor's own SHA-256 term, so any route to the representation hash is recognised
                         claim = cm.new_cell(it, cm.tvm_bits(it, BA([Seg(24, 'k', format(0xC1A133, '024b'))])), [])
-                        claim_l0 = claim.attrs['_hash']
+                        claim_l0 = cm.cached(it, claim, '_hash')
                     elif claim_kind == 'ordinary-above-a-pruned-part':
                         # the account cell with one of its sub-trees replaced by a pruned branch: an ORDINARY cell of level 1 - not exotic - whose
                         # level-0 hash is that of the complete account, while its own (representation) hash is not the committed one
@@ -341,7 +343,7 @@ def check(run):
                     else:
                         claim_l0 = sym32('CARRIED')
                         claim = pruned(it, 'claim', claim_l0)
-                    claim_repr = claim.attrs['_hash']
+                    claim_repr = cm.cached(it, claim, '_hash')
                     try:
                         # the explicitly recomputed representation hash: equal to the cached one for level-0 cells (C01.D5); for a cell of level > 0 it
                         # is another digest of the cell's OWN content - either is "its own hash", neither is the level-0 (virtual) hash
@@ -504,7 +506,7 @@ def check(run):
             addr.attrs.update(wc=K(0), hash_part=K(addr_bytes))
             blk = Inst(prog.cls('BlockIdExt'))
             blk.attrs.update(root_hash=sym32('BLOCKHASH'), file_hash=sym32('FH'), workchain=K(0), shard=K(1 << 63), seqno=K(9))
-            info = dict(it=it, blk_l0=blk_root.l0, BH=sym32('BLOCKHASH'), state_l0=cm.call_method(it, state, 'get_hash', K(0)), ST=ST, A=A, claim_repr=claim.attrs['_hash'], parts=parts)
+            info = dict(it=it, blk_l0=blk_root.l0, BH=sym32('BLOCKHASH'), state_l0=cm.call_method(it, state, 'get_hash', K(0)), ST=ST, A=A, claim_repr=cm.cached(it, claim, '_hash'), parts=parts)
             try:
                 r = it.invoke(f_acc, [K(b'proof-bytes'), blk, addr, claim, K(True)], {})
                 return ('accept', r, info)
